@@ -59,6 +59,9 @@ FLAGSETS = [O["PATH"], O["RDONLY"], O["PATH"] | O["NOFOLLOW"], O["RDONLY"] | O["
             O["RDONLY"] | O["NONBLOCK"]]
 
 
+RAW_TMPFILE = O["TMPFILE"] & ~O["DIRECTORY"]        # __O_TMPFILE: O_TMPFILE is this bit plus O_DIRECTORY
+
+
 def nonabs_magic_component(p, fds=()):
     """Does a non-final component of the sub-path name an fd/N or ns/* magic-link whose link text is not absolute?
     The link text of fd/N is that of the *driver's* descriptor N (reported with the result), not of this process'."""
@@ -117,6 +120,14 @@ def run(ck):
                                  "handle_deny": [], "meta": {"path": pp}})
             jid += 1
             jobs.append({"id": jid, "op": {"k": "proc_readlink", "base": base, "path": H(pp)}, "handle_deny": [], "meta": {"path": pp}})
+    # creation flags on every kind of sub-path, in particular with the trailing slash that adds O_DIRECTORY (O_TMPFILE contains it)
+    for pp in ("fd/", "cwd/", "root/", "task//", "fd", "exe", "status", "fd/0/", "nonexistent/"):
+        for fl in (O["RDWR"] | O["TMPFILE"], O["WRONLY"] | O["TMPFILE"], O["RDONLY"] | O["CREAT"], O["RDONLY"] | O["EXCL"], O["PATH"] | O["CREAT"] | O["EXCL"],
+                   RAW_TMPFILE | O["RDWR"], RAW_TMPFILE | O["WRONLY"]):
+            for follow in (False, True):
+                jid += 1
+                jobs.append({"id": jid, "op": {"k": "proc_open", "base": "self", "path": H(pp), "flags": fl, "follow": follow},
+                             "handle_deny": [], "meta": {"path": pp}})
     byid = {j["id"]: j for j in jobs}
     res_by_cfg = {}
     stats = {"runs": 0, "t1_ok": 0, "t1_bad": 0, "classes": {}, "equiv_compared": 0}
@@ -141,7 +152,13 @@ def run(ck):
                 ck.violation("C07: procfs lookup panicked", desc)
                 continue
             fl = op.get("flags", O["PATH"])
-            creation = bool(fl & (O["CREAT"] | O["EXCL"])) or (fl & O["TMPFILE"]) == O["TMPFILE"]
+            # the flags open_follow uses: a trailing slash asks for a directory, which completes a bare __O_TMPFILE
+            fl_used = fl | O["DIRECTORY"] if op["k"] == "proc_open" and op.get("follow") and p.endswith(b"/") else fl
+            creation = bool(fl & (O["CREAT"] | O["EXCL"])) or (fl_used & O["TMPFILE"]) == O["TMPFILE"]
+            if op["k"] == "proc_open" and fl & RAW_TMPFILE and "ok" in r:
+                # the kernel lets an open with __O_TMPFILE succeed only as O_TMPFILE, i.e. by creating an unnamed file
+                ck.violation("C07: a procfs open with the __O_TMPFILE bit succeeded (an unnamed temporary file was created)", desc)
+                continue
             if op["k"] == "proc_open" and creation:
                 if cls[:2] != ("err", "InvalidArgument"):
                     ck.violation("C07: creation flags were not refused by a procfs open", desc)
@@ -187,6 +204,11 @@ def run(ck):
             continue
         if unstable_path(p):
             continue        # per-process entries (other descriptors, thread ids): the two runs are different processes
+        fl_ = job["op"].get("flags", 0)
+        if fl_ & RAW_TMPFILE and not fl_ & O["DIRECTORY"]:
+            # a bare __O_TMPFILE is no combination of O_* flags (O_TMPFILE is the bit plus O_DIRECTORY): openat2(2) rejects the flag
+            # word itself, openat(2) gets to the path first.  These words are here for the creation clause only (checked above).
+            continue
         ra, rb = a.get("res", {}), b_.get("res", {})
         if "setup_err" in ra or "setup_err" in rb:
             continue
